@@ -120,18 +120,21 @@ def replay(beh, mode, rate_name="dyadic", ascending=True, seed=11, complex_src=F
     refs = {}
     chirp = {}
     if mode == "ident":
-        def mk(tag, scale, unit):
+        def mk(tag, scale, unit, cplx):
             def f(ts):
                 ts_log.append((tag, np.array(ts, copy=True)))
                 v = scale * (np.round(ts * rate) + unit) + tag
-                return v * (1j if complex_src else 1)
+                return v * (1j if cplx else 1)
             return f
+
+        def is_cplx(p):
+            return (complex_src == "y" and p == 1) or complex_src is True
         for ai, a in enumerate(ants):
             for p, s in enumerate(a.streams):
-                s.add_signal(mk(1000.0 * (ai * 2 + p + 1), 1.0, 0.0))      # own: tick + 1000*tag   (tick < 1000)
+                s.add_signal(mk(1000.0 * (ai * 2 + p + 1), 1.0, 0.0, is_cplx(p)))      # own: tick + 1000*tag   (tick < 1000)
         if cfg["kind"] == "array":
             for p, s in enumerate(src.bg_streams):
-                s.add_signal(mk(1e10 * (p + 1), 1e6, 1.0))                  # bg: 1e6*(tick+1) + 1e10*(pol+1)
+                s.add_signal(mk(1e10 * (p + 1), 1e6, 1.0, is_cplx(p)))       # bg: 1e6*(tick+1) + 1e10*(pol+1)
     elif mode == "noise":
         for ai, a in enumerate(ants):
             for p, s in enumerate(a.streams):
@@ -144,7 +147,8 @@ def replay(beh, mode, rate_name="dyadic", ascending=True, seed=11, complex_src=F
     elif mode == "chirp":
         for ai, a in enumerate(ants):
             for p, s in enumerate(a.streams):
-                par = (rate * (0.11 + 0.07 * ai + 0.03 * p), rate * rate * 0.002 * (1 if p == 0 else -1),
+                # second polarisation: a non-drifting tone (drift exactly 0) with a phase that is not a multiple of pi
+                par = (rate * (0.11 + 0.07 * ai + 0.03 * p), rate * rate * 0.002 if p == 0 else 0.0,
                        1.5 + ai, 0.3 + 1.1 * p)
                 chirp[(ai, p)] = par
                 s.add_constant_signal(f_start=par[0], drift_rate=par[1], level=par[2], phase=par[3])
@@ -167,12 +171,15 @@ def replay(beh, mode, rate_name="dyadic", ascending=True, seed=11, complex_src=F
                         e = exp[a][p]
                         if mode == "ident":
                             raw = v[a][p]
-                            if complex_src:
+                            cp = (complex_src is True) or (complex_src == "y" and p == 1)
+                            if cp:
                                 if np.any(np.real(raw) != 0):
                                     raise Div("C10", "out.complex_real_part", 0, np.real(raw).tolist(), k)
                                 raw = np.imag(raw)
                             elif np.iscomplexobj(raw):
-                                raise Div("C10", "out.dtype", "real", str(raw.dtype), k)
+                                if complex_src is False or np.any(np.imag(raw) != 0):
+                                    raise Div("C10", "out.dtype", "real", str(raw.dtype), k)
+                                raw = np.real(raw)
                             x = np.asarray(raw, dtype=float)
                             bgpart = np.floor(x / 1e6 + 1e-9)
                             own = x - bgpart * 1e6
